@@ -16,6 +16,8 @@ import Driver.C07
 import Driver.C08
 import Driver.C17
 import Driver.C10
+import Driver.C12
+import Driver.C13
 import Driver.C16
 open Lean
 
@@ -38,6 +40,8 @@ def handle (j : Json) : Json :=
   | .ok "C17" => C17.handle j
   | .ok "C10" => C10.handle j
   | .ok "C11" => C10.handle j
+  | .ok "C12" => C12.handle j
+  | .ok "C13" => C13.handle j
   | .ok "C16" => C16.handle j
   | _ => badOp
 
